@@ -170,3 +170,28 @@ def non_tag_target_ok(si: int, k: int) -> bool:
         except TypeError:
             pass
     return ret(ok)
+
+
+LENGTHS = [4, 40, 400, 4300, 4301, 6000]
+LONG_VALUES = [('date', '%s-01-01'), ('month', '%s-01'), ('week', '%s-W01'), ('datetime-local', '%s-01-01T00:00'),
+               ('number', '%s'), ('number', '1e%s'), ('number', '.%s'), ('range', '-%s.%s'), ('time', '%s:00')]
+
+
+def long_values_ok(li: int, vi: int, where: int) -> bool:
+    """
+    pre: 0 <= li < len(LENGTHS)
+    pre: 0 <= vi < len(LONG_VALUES)
+    pre: 0 <= where <= 2
+    post: _
+    """
+    # very long digit runs (beyond the interpreter's 4300-digit int conversion limit) as min / max / value
+    li, vi, where = concrete(li), concrete(vi), concrete(where)
+    with notrace():
+        itype, form = LONG_VALUES[vi]
+        text = form.replace('%s', '9' * LENGTHS[li])
+        attrs = [(N1, 'type', itype), (N1, 'min', '1'), (N1, 'max', None), (N1, 'value', '2')]
+        attrs[1 + where] = (N1, ('min', 'max', 'value')[where], text)
+        with tg.inject(attrs):
+            a = IN_RANGE.match(N1)
+            b = OUT_RANGE.match(N1)
+    return ret(isinstance(a, bool) and isinstance(b, bool) and not (a and b))
